@@ -140,7 +140,9 @@ def _function_over_one_var(repr_func, raw_func, x, out=None, out_like=None, sizi
     else:
         config = x.config
 
-    if method == 'repr' or x.scaled or n_frac is None:
+    # (a result object with scale or bias takes the value, not a raw code)
+    _scaled = x.scaled or (out is not None and out.scaled) or (out_like is not None and out_like.scaled)
+    if method == 'repr' or _scaled or n_frac is None:
         raw = False
         val = repr_func(x.get_val(), **kwargs)
     elif method == 'raw':
@@ -201,7 +203,9 @@ def _function_over_two_vars(repr_func, raw_func, x, y, out=None, out_like=None, 
     else:
         config = x.config
 
-    if method == 'repr' or x.scaled or n_frac is None:
+    # (a result object with scale or bias takes the value, not a raw code; so does a template given together with a scaled second operand)
+    _scaled = x.scaled or (out is not None and out.scaled) or (out_like is not None and (out_like.scaled or y.scaled))
+    if method == 'repr' or _scaled or n_frac is None:
         raw = False
         x_val, y_val = _repr_val(x), _repr_val(y)
         if getattr(repr_func, '__name__', '') in ('add', 'subtract', 'multiply', 'dot') \
